@@ -517,6 +517,40 @@ def restepped_models(M, rec, rng, g, n_nets):
                         "compact": compact})
 
 
+def ramps_at_user_nodes(M, rec, rng, g, reps):
+    """Scripted in every run: an on-ramp at a user-defined node whose own downstream density (what it tells the ENTERING links
+    lies ahead) is lower than the first segment of the leaving link, which is at its maximum density / above critical: the
+    ramp's flow law reads the first segment of its link (decided at the network boundary by the in-situ monitor)."""
+    NE, CE = drive.engines(M)
+    for i in range(reps):
+        kind, eq = (("ramp", "in"), ("ramp", "out"), ("simple", "limited"))[i % 3]
+
+        def lk(j, up, dn):
+            return {"id": f"L{j}", "name": f"L{j}", "up": up, "down": dn, "N": rng.choice((2, 3)), "lam": 2, "L": 1.0, "rho_max": 180.0,
+                    "rho_crit": round(rng.uniform(28, 38), 1), "v_free": 102.0, "a": 1.867, "beta": 1.0, "vsl": None, "alpha": None}
+
+        desc = {"nodes": ["n0", "n1", "n2"], "links": [lk(0, "n0", "n1"), lk(1, "n1", "n2")],
+                "origins": [{"id": "O0", "name": "O0", "node": "n0", "kind": "main", "C": None, "eq": None},
+                            {"id": "O1", "name": "O1", "node": "n1", "kind": kind, "C": 2000.0, "eq": eq}],
+                "dests": [{"id": "D0", "name": "D0", "node": "n2", "kind": "free"}],
+                "node_off": {"n1": 0.0}, "node_block": {"n1": round(rng.uniform(5.0, 40.0), 1)}}
+        built = D.build(M, desc)
+        pars = g.pars()
+        _, vals = g.values(desc, "interior", allow_inf=False)
+        vals["L1"]["rho"][0] = 180.0 if i % 2 == 0 else rng.uniform(120.0, 180.0)
+        vals["O1"].update(d=rng.uniform(1500.0, 3000.0), w=rng.uniform(5.0, 50.0))
+        if "r" in vals["O1"]:
+            vals["O1"]["r"] = 1.0
+        if "q" in vals["O1"]:
+            vals["O1"]["q"] = 1e5
+        on_case({"desc": desc}, built)
+        rec.count("ramps_at_user_defined_nodes")
+        try:
+            built.net.step(init_conditions=drive.np_init(built, vals, "vec1"), engine=NE(), **drive.step_pars(pars))
+        except Exception:
+            pass
+
+
 def run(M, rec, tier, seed, k, n):
     np.seterr(all="ignore")
     rng = random.Random(seed * 1000 + k + 1700)
@@ -554,6 +588,10 @@ def run(M, rec, tier, seed, k, n):
         replaced_link_scenarios(M, rec, rng, G.NetGen(rng), 24 if tier == "quick" else 200)
         ensemble_steps(M, rec, rng, sm, 24 if tier == "quick" else 200)
         restepped_models(M, rec, rng, G.NetGen(rng), 24 if tier == "quick" else 200)
+        # user-defined node kinds with their own node rules (also their own downstream density) at the ramps' nodes: what a ramp
+        # may admit is decided by the first segment of ITS link
+        W.user_node_rules(M, rec, rng, 30 if tier == "quick" else 300, before_case=on_case, regimes=("jam", "boundary", "interior", "jam"))
+        ramps_at_user_nodes(M, rec, rng, G.NetGen(rng), 18 if tier == "quick" else 120)
         W.closed_loop(M, rec, rng, 7 if tier == "quick" else 14, 90 if tier == "quick" else 260, on_step=on_step)
     finally:
         sm.uninstall()
